@@ -56,6 +56,10 @@ checks = {
    text="For every (state, mutating operation) pair of the address manager (next/extend/new account/imported xpub account/rename/mark used/imports/passphrase changes/convert to watching-only/set synced/new scope, from several states) and for every chain event, lease, release, sweep and label operation of the transaction store from every reachable state of the curated tx-graph universes, a fault-free run counts the database writes N and then each of the N write positions is failed in turn through a proxy of the walletdb interfaces. Oracle: success implies full effect (observations of live and restarted manager and database key structure, or the store dump, equal the fault-free run); an error implies that after rollback database bytes and manager answers are as before; a retry gives the fault-free result.",
    note="Single-fault model (exactly one failing write per operation); faults in reads and in commit itself are not injected; answers about never-issued addresses are not compared.",
    technique="exhaustive fault-position enumeration on the real code through an interface proxy, differential against the fault-free run"),
+ "C15": dict(engine="wsim", level=MC, ref="4/C15",
+   text="The real wallet (Create/Open/Start/SynchronizeRPC, notification loop, syncWithChain, rollback loop, rescan hand-over) is driven against a block-tree chain model through a fake chain.Interface; every sequence of up to 4 (thorough 5) evolution steps over extend (empty / paying the wallet / spending a wallet output / re-confirming reorged txs), disconnect, duplicate and stale disconnect notifications, restart, offline extension and offline reorgs of depth 1-2, in three notification orders, is executed; after every step SyncedTo must equal the model tip, BlockHash(h) the best-chain hash for every height in the window, and every transaction's block field must be the model's best-chain block.",
+   note="Chains of height <= 5 (MaxReorgDepth 10000 is never reached, stale-height pruning not exercised); all notifications are sent sequentially by the harness; the wallet's own goroutines run free but are driven so that the pipeline is sequential (barrier + quiescence detection).",
+   technique="bounded exhaustive enumeration of chain evolutions against the real wallet (stateless model checking) with a chain model as oracle"),
 }
 pending_reason = "check not built yet in this session (planned, see DESIGN.md section 4)"
 def sh(c): return subprocess.run(c, shell=True, capture_output=True, text=True).stdout.strip()
@@ -70,6 +74,7 @@ m = {
   {"name": "seqx", "path": "harness/amgr", "serves_properties": ["C03","C04","C05","C08","C10"], "kind_free_text": "stateless bounded-depth enumeration of operation sequences on real waddrmgr managers (fresh copy of a template database per execution), 16 workers"},
   {"name": "vsched-chan", "path": "harness/c18", "serves_properties": ["C18"], "kind_free_text": "controlled scheduler with a channel/select model; queue.go rewritten by an AST pass generated from the current tree; DFS with visited set over canonical global states"},
   {"name": "faultdb", "path": "harness/faultdb", "serves_properties": ["C10"], "kind_free_text": "walletdb bucket/cursor/tx proxy that counts mutating calls and fails exactly the k-th"},
+  {"name": "wsim", "path": "harness/wsim", "serves_properties": ["C06","C15","C16","C20"], "kind_free_text": "closed system around the real wallet: block-tree chain model, fake chain.Interface (real BlockFilterer), sequential notification feeder with barriers, goroutine-state quiescence detector, scripted backend answers"},
   {"name": "txgraph", "path": "harness/txgraph", "serves_properties": ["C01","C02","C12","C13","C14","C10"], "kind_free_text": "explicit-state BFS over the real wtxmgr.Store (state = canonical namespace dump) with a reference ledger in lock-step"},
  ],
  "checks": [], "not_applicable": [],
